@@ -120,6 +120,9 @@ class Interp:
                 v = self.eval(e.value, fr)
                 if hasattr(v, "pyvc_star"):
                     v = v.pyvc_star()
+                if isinstance(v, (SList, SListView)):
+                    out.append(_StarArgs(v))     # a symbolic sequence spliced into a call: the callee contract sees the marker
+                    continue
                 if not isinstance(v, (list, tuple)):
                     raise Unsupported("starred symbolic sequence")
                 out.extend(v)
